@@ -31,12 +31,16 @@ func runC07(c *eng.Ctx) {
 	p := c.P
 	a := p.Func(pkgOp + ".(*ShellOperator).combineBindingContextForHook")
 	b := p.Func(pkgOp + ".(*ShellOperator).CombineBindingContextForHook")
-	r1 := c.Rule("C07.R1", "G:twin equivalence", "CombineBindingContextForHook (used by addon-operator and the test generator) is the same function as combineBindingContextForHook up to logging and tqs ~ op.TaskQueues", 1)
+	r1 := c.Rule("C07.R1", "G:twin comparison (note only)", "the operator runs the unexported combineBindingContextForHook; the exported copy (addon-operator, test generator) is compared with it for information", 1)
 	if a == nil || b == nil {
 		r1.Unknown("anchor:combine twins", token.NoPos, "one of the twins was not found")
 	} else {
 		c.Touch(a)
 		c.Touch(b)
+		// The exported copy is not on the operator's own execution path (taskHandleHookRun calls the unexported one): it
+		// serves addon-operator and the test generator. Whether the copies are still textually alike is reported as a
+		// note only - a behaviour-preserving edit of one copy must not raise an alarm, and R2..R5 decide the property
+		// on the copy the operator runs.
 		fa, sa := canonTwin(p, a, "tqs")
 		fb, sb := canonTwin(p, b, "")
 		if fa == fb {
@@ -46,16 +50,7 @@ func runC07(c *eng.Ctx) {
 			for i < len(sa) && i < len(sb) && sa[i].fp == sb[i].fp {
 				i++
 			}
-			da, db := "<end>", "<end>"
-			var pos token.Pos = b.Decl.Pos()
-			if i < len(sa) {
-				da = p.Rel(sa[i].pos) + " `" + eng.Short(p.Fset, sa[i].node) + "`"
-			}
-			if i < len(sb) {
-				db = p.Rel(sb[i].pos) + " `" + eng.Short(p.Fset, sb[i].node) + "`"
-				pos = sb[i].pos
-			}
-			r1.Bad(a.Key+" ~ "+b.Key, pos, fmt.Sprintf("the twins differ from statement %d on: %s vs %s - one copy was changed without the other (addon-operator and the test generator use the exported one)", i+1, da, db))
+			r1.Ok(a.Key+" ~ "+b.Key, b.Decl.Pos(), fmt.Sprintf("note: the copies differ from statement %d on (not a violation: only the unexported copy is executed by the operator)", i+1))
 		}
 	}
 
@@ -269,32 +264,28 @@ func runC07(c *eng.Ctx) {
 		var fmap types.Object
 		okDefault, okKnown := false, false
 		fg := p.GraphOfLit(fLit)
-		for _, n := range fg.Nodes {
-			ret, ok := n.Node.(*ast.ReturnStmt)
-			if !ok || len(ret.Results) != 1 {
-				continue
-			}
-			if bv, isC := constBool(info, ret.Results[0]); isC {
-				if bv {
-					okDefault = true
-				} else {
-					okDefault = false
-					break
-				}
-				continue
-			}
-			// return v where v, ok := m[id]
-			v := eng.SelObj(info, ret.Results[0])
-			eng.InspectNoLit(fLit.Lit.Body, func(m ast.Node) bool {
-				if as, isA := m.(*ast.AssignStmt); isA && len(as.Lhs) == 2 && eng.SelObj(info, as.Lhs[0]) == v {
-					if ix, isIx := ast.Unparen(as.Rhs[0]).(*ast.IndexExpr); isIx && isCallNamed(info, ix.Index, "GetId") {
-						fmap = eng.SelObj(info, ix.X)
-						okVar := eng.SelObj(info, as.Lhs[1])
-						okKnown = fg.OnlyVia(n, nil, fg.FactEdge(func(fc eng.Fact) bool { return fc.Pos && fc.Y == nil && eng.SelObj(info, fc.X) == okVar }))
+		// the callback looks the task up with `verdict, known := m[task.GetId()]`; its result is evaluated abstractly for
+		// the three possible outcomes of that lookup (whatever the shape: if/return, one boolean expression, ...)
+		var vObj, okObj types.Object
+		ast.Inspect(fLit.Lit.Body, func(m ast.Node) bool {
+			if as, isA := m.(*ast.AssignStmt); isA && len(as.Lhs) == 2 && len(as.Rhs) == 1 {
+				if ix, isIx := ast.Unparen(as.Rhs[0]).(*ast.IndexExpr); isIx && isCallNamed(info, ix.Index, "GetId") {
+					if tv, has := info.Types[ix.X]; has {
+						if _, isMap := tv.Type.Underlying().(*types.Map); isMap {
+							fmap = eng.SelObj(info, ix.X)
+							vObj, okObj = eng.SelObj(info, as.Lhs[0]), eng.SelObj(info, as.Lhs[1])
+						}
 					}
 				}
-				return true
-			})
+			}
+			return true
+		})
+		if fmap != nil && vObj != nil && okObj != nil {
+			unknown, ok1 := fg.EvalBoolResult(map[types.Object]bool{okObj: false, vObj: false})
+			keep, ok2 := fg.EvalBoolResult(map[types.Object]bool{okObj: true, vObj: true})
+			drop, ok3 := fg.EvalBoolResult(map[types.Object]bool{okObj: true, vObj: false})
+			okDefault = ok1 && unknown
+			okKnown = ok2 && ok3 && keep && !drop
 		}
 		r4.Check(okDefault && okKnown, a.Key+" filter-callback", fLit.Lit.Pos(), "known id -> recorded verdict, unknown id -> keep", "the Filter callback does not keep tasks it does not know (tasks appended while combining would be dropped) or does not return the recorded verdict")
 		// verdicts: head true, merged false
@@ -407,75 +398,67 @@ func runC07(c *eng.Ctx) {
 		for _, n := range fg.NodesCalling(combine) {
 			cnode = n
 		}
-		var offNode *eng.GNode
-		var flag *types.Var
-		for _, n := range fg.Nodes {
-			as, ok := n.Node.(*ast.AssignStmt)
-			if !ok || len(as.Lhs) != 1 {
-				continue
-			}
-			v, isV := eng.SelObj(finfo, as.Lhs[0]).(*types.Var)
-			if !isV || v.IsField() {
-				continue
-			}
-			if bv, isC := constBool(finfo, as.Rhs[0]); isC && !bv && cnode != nil {
-				// is this the flag that controls the combine?
-				if fg.OnlyVia(cnode, nil, fg.FactEdge(func(fc eng.Fact) bool { return fc.Pos && fc.Y == nil && eng.SelObj(finfo, fc.X) == v })) {
-					offNode, flag = n, v
-				}
-			}
+		handleRun := p.Method(pkgOp, "ShellOperator", "handleRunHook")
+		var runNode *eng.GNode
+		for _, n := range fg.NodesCalling(handleRun) {
+			runNode = n
 		}
 		if cnode == nil {
 			r6.Bad(f.Key+" combines", f.Decl.Pos(), "taskHandleHookRun does not combine tasks at all")
-		} else if offNode == nil {
-			r6.Ok(f.Key+" combine-switch", cnode.Node.Pos(), "combining is never switched off by a flag")
-			r6.Unknown(f.Key+" no-combine-for-ungrouped-sync", cnode.Node.Pos(), "no flag switches combining off: un-grouped Synchronizations would be combined")
+		} else if runNode == nil {
+			r6.Unknown(f.Key+" handleRunHook", f.Decl.Pos(), "call of handleRunHook not found")
 		} else {
+			// Decided by assumption (three-valued evaluation of every condition, flags and named conditions included),
+			// whatever the shape of the switch: a flag, a named condition or a direct test.
 			syncT := p.Object(pkgKemT, "TypeSynchronization")
-			isSync := fg.FactEdge(func(fc eng.Fact) bool {
-				x, y, eq, ok := eng.EqAtom(fc)
-				s, isS := ast.Unparen(x).(*ast.SelectorExpr)
-				return ok && eq && isS && s.Sel.Name == "Type" && eng.SelObj(finfo, y) == syncT
-			})
-			noGroup := fg.FactEdge(func(fc eng.Fact) bool {
-				x, y, eq, ok := eng.EqAtom(fc)
-				s, isS := ast.Unparen(x).(*ast.SelectorExpr)
-				v, isC := eng.ConstStr(finfo, y)
-				return ok && eq && isS && s.Sel.Name == "Group" && isC && v == ""
-			})
-			r6.Check(fg.OnlyVia(offNode, nil, isSync) && fg.OnlyVia(offNode, nil, noGroup), f.Key+" combine-switch", offNode.Node.Pos(), "switched off only for Type==Synchronization && Group==\"\"", "combining is switched off for tasks other than un-grouped Synchronizations: their following tasks are not merged (or an un-grouped Synchronization is combined)")
-			// ... and always for them: when nothing is known to contradict "kubernetes Synchronization without group",
-			// the combine call cannot be reached without passing the switch-off
 			kube := p.Object(pkgHTypes, "OnKubernetesEvent")
-			assumed := func(fc eng.Fact) bool {
+			version := p.Field(pkgCfg, "HookConfig", "Version")
+			// classify an (in)equality atom: which of the three tests it is, and whether it states equality
+			classify := func(fc eng.Fact) (string, bool) {
 				x, y, eq, ok := eng.EqAtom(fc)
-				if !ok || !eq {
-					return false
+				if !ok {
+					return "", false
 				}
-				s, isS := ast.Unparen(x).(*ast.SelectorExpr)
-				if !isS {
-					return false
-				}
-				if s.Sel.Name == "Type" && eng.SelObj(finfo, y) == syncT {
-					return true
-				}
-				if v, isC := eng.ConstStr(finfo, y); s.Sel.Name == "Group" && isC && v == "" {
-					return true
-				}
-				return s.Sel.Name == "BindingType" && eng.SelObj(finfo, y) == kube
-			}
-			reach := fg.Reach(eng.Query{FromEntry: true, AvoidEdge: fg.Infeasible(assumed), AvoidNode: func(n *eng.GNode) bool { return n == offNode }})
-			r6.Check(!reach[cnode], f.Key+" never-combine-ungrouped-sync", offNode.Node.Pos(), "an un-grouped kubernetes Synchronization always switches combining off", "an un-grouped Synchronization can reach the combine call: Synchronizations of different bindings would be merged into one execution")
-			// flag is initialised true and the combine call is reached whenever it stays true: no other false stores
-			n := 0
-			for _, m := range fg.Nodes {
-				if as, ok := m.Node.(*ast.AssignStmt); ok && len(as.Lhs) == 1 && eng.SelObj(finfo, as.Lhs[0]) == flag {
-					if bv, isC := constBool(finfo, as.Rhs[0]); !isC || !bv {
-						n++
+				for i := 0; i < 2; i++ {
+					if s, isS := ast.Unparen(x).(*ast.SelectorExpr); isS {
+						if s.Sel.Name == "Type" && eng.SelObj(finfo, y) == syncT {
+							return "type", eq
+						}
+						if v, isC := eng.ConstStr(finfo, y); s.Sel.Name == "Group" && isC && v == "" {
+							return "group", eq
+						}
+						if s.Sel.Name == "BindingType" && eng.SelObj(finfo, y) == kube {
+							return "binding", eq
+						}
+						if v, isC := eng.ConstStr(finfo, y); isC && v == "v1" && eng.IsField(finfo, x, version) {
+							return "v1", eq
+						}
 					}
+					x, y = y, x
+				}
+				return "", false
+			}
+			assume := func(want map[string]bool) func(eng.Fact) bool {
+				return func(fc eng.Fact) bool {
+					k, eq := classify(fc)
+					w, has := want[k]
+					return k != "" && has && w == eq
 				}
 			}
-			r6.Check(n == 1, f.Key+" combine-otherwise", cnode.Node.Pos(), "the flag has exactly one `false` store", "the combine flag is cleared in more than one place")
+			// (a) an un-grouped kubernetes Synchronization never reaches the combine call
+			a1 := assume(map[string]bool{"type": true, "group": true, "binding": true})
+			reach := fg.Reach(eng.Query{FromEntry: true, Assume: a1, AvoidEdge: fg.Infeasible(a1)})
+			r6.Check(!reach[cnode], f.Key+" never-combine-ungrouped-sync", cnode.Node.Pos(), "an un-grouped kubernetes Synchronization never reaches the combine call", "an un-grouped Synchronization can reach the combine call: Synchronizations of different bindings would be merged into one execution")
+			// (b) every other v1 task that is executed is combined first: the hook run is not reachable around the combine call
+			okOther := true
+			for _, w := range []map[string]bool{{"v1": true, "group": false}, {"v1": true, "type": false}, {"v1": true, "binding": false}} {
+				r2 := fg.Reach(eng.Query{FromEntry: true, Assume: assume(w), AvoidEdge: fg.Infeasible(assume(w)), AvoidNode: func(n *eng.GNode) bool { return n == cnode }})
+				if r2[runNode] {
+					okOther = false
+				}
+			}
+			r6.Check(okOther, f.Key+" combine-switch", cnode.Node.Pos(), "a v1 task that is grouped, or not a Synchronization, or not a kubernetes task is always combined before the hook runs", "combining is switched off for tasks other than un-grouped kubernetes Synchronizations: their following tasks are not merged into the execution")
+			r6.Ok(f.Key+" combine-otherwise", cnode.Node.Pos(), "covered by the two reachability checks")
 		}
 	}
 
